@@ -32,6 +32,7 @@ TEMPLATES = {
     'dedup': ('dedup.vtmpl', 'src/collections/vec.rs'),
     'vecops': ('vecops.vtmpl', 'src/collections/vec.rs'),
     'strops': ('strops.vtmpl', 'src/collections/string.rs'),
+    'boxops': ('boxops.vtmpl', 'src/boxed.rs'),
 }
 
 
